@@ -5,6 +5,7 @@ import Req.C03.H2Cut
 import Req.C03.H2Pool
 import Req.C03.H3Cut
 import Req.C03.GzipCut
+import Req.C03.EncCut
 /-! Driver lanes of C03.
 
 `c03cut <G|H> <eof|hold> <hex stream> <k>`: the peer sends the first `k` bytes of the stream in
@@ -192,7 +193,59 @@ def laneGz : List String → String
     | _, _, _, _ => "bad-op"
   | _ => "bad-op"
 
+/-! ### encoded bodies (gzip / deflate: the container model of C14 behind the framing model) -/
+
+def parseEnc : String → Option Enc
+  | "gzip" => some .gzip
+  | "deflate" => some .deflate
+  | _ => none
+
+def renderEnc (mode : String) : EncOutcome → String
+  | .pending => "pending"
+  | .callFailed true => "retry"
+  | .callFailed false => if mode == "s" then "fail-call" else "fail"
+  | .ok st body => "ok status=" ++ toString st ++ " body=" ++ encodeHex body
+  | .bodyFailed _ _ => if mode == "s" then "fail-body" else "fail"
+
+/-- `c03h2z <gzip|deflate> <head> <stream id> <events> <mode s|a>`: `c03h2` with the body decoded. -/
+def laneH2z : List String → String
+  | [enc, hd, sid, evs, mode] =>
+    match parseEnc enc, parseBool01 hd, sid.toNat?, decodeH2XEvs evs with
+    | some enc, some isHead, some sid, some evs =>
+      if mode != "s" && mode != "a" then "bad-op" else
+      let x := ((H2X.init sid isHead).run (evs.map .ev)).2
+      renderEnc mode (h2Enc enc x 512) ++ " dials=" ++ toString (h2DialsAfterNext x)
+    | _, _, _, _ => "bad-op"
+  | _ => "bad-op"
+
+/-- `c03h3z <gzip|deflate> <head> <segs> <fin|reset|close> <fieldlists> <mode s|a>`: `c03h3` decoded. -/
+def laneH3z : List String → String
+  | [enc, hd, segs, fin, fls, mode] =>
+    match parseEnc enc, parseBool01 hd, decodeList segs, parseH3End fin, decodeFieldLists fls with
+    | some enc, some isHead, some segs, some e, some fls =>
+      if mode != "s" && mode != "a" then "bad-op" else
+      let (zo, o) := h3Enc enc isHead segs e.net fls 10485760 512
+      renderEnc mode zo ++ " dials=" ++ toString (h3DialsAfterSecond e o)
+    | _, _, _, _, _ => "bad-op"
+  | _ => "bad-op"
+
+/-- `c03h1z <gzip|deflate> <hex stream> <k>`: an HTTP/1.1 response with an encoded body under
+`EnableAutoDecompress`, cut at `k`, then EOF. -/
+def laneH1z : List String → String
+  | [enc, hex, ks] =>
+    match parseEnc enc, decodeHex hex, ks.toNat? with
+    | some enc, some s, some k =>
+      match h1Enc enc 4096 (s.take k) with
+      | none => "fail"
+      | some (.ok _ body) => "ok body=" ++ encodeHex body
+      | some _ => "fail"
+    | _, _, _ => "bad-op"
+  | _ => "bad-op"
+
 def lanes : List (String × (List String → String)) := [
+  ("c03h2z", laneH2z),
+  ("c03h3z", laneH3z),
+  ("c03h1z", laneH1z),
   ("c03cut", laneCut),
   ("c03gz", laneGz),
   ("c03over", laneOver),
